@@ -140,7 +140,7 @@ def write_cfg(path, spec="MCSpec", constants=None, invariants=(), properties=(),
         for k, v in constants.items():
             if isinstance(v, bool):
                 v = "TRUE" if v else "FALSE"
-            lines.append(f"  {k} = {v}")
+            lines.append(f"  {k} {v}" if isinstance(v, str) and v.startswith("<-") else f"  {k} = {v}")
     if view:
         lines.append(f"VIEW {view}")
     if constraint:
